@@ -131,6 +131,24 @@ impl Prop for PPrintf {
                 v["tree"][i]["text"] = str_to_json(*rng.pick(&["nowhere", "../gone", "no such", "né/x"]));
             }
         }
+        // one case in three: names of two- and three-byte characters (a column is so many characters wide, not bytes)
+        if idx % 3 == 1 {
+            for i in 0..n {
+                if rng.chance(1, 2) {
+                    let base = *rng.pick(&["é", "日本", "dé", "ü", "€uro"]);
+                    v["tree"][i]["name"] = str_to_json(&format!("{}{}", base, i));
+                }
+            }
+            // starting points are spelled after their nodes' names
+            let tree_copy = v["tree"].clone();
+            for r in v["roots"].as_array_mut().unwrap() {
+                let k = r["node"].as_u64().unwrap_or(0) as usize;
+                if k > 0 {
+                    let nm = json_to_string(&tree_copy[k - 1]["name"]);
+                    r["spell"] = str_to_json(&if nm.starts_with('-') { format!("./{}", nm) } else { nm });
+                }
+            }
+        }
         let dirs: [&str; 15] = ["p", "f", "h", "H", "P", "d", "s", "n", "i", "U", "G", "m", "y", "Y", "l"];
         let mut fmt: Vec<u32> = vec![];
         for _ in 0..1 + rng.below(if tier == "thorough" { 10 } else { 6 }) {
